@@ -324,10 +324,17 @@ def wrap_with_field(node: CSSValue, config: Config, state: WrapState=None):
 
     return CSSValue(value)
 
+def context_name(config: Config):
+    "Returns name of context of given config: a context without name is treated like markup does"
+    return config.context.get('name') or ''
+
+
 def is_value_scope(config: Config):
     "Check if abbreviation should be expanded in CSS value context"
     if config.context:
-        return config.context['name'] == CSSAbbreviationScope.Value or not config.context['name'].startswith('@@')
+        name = context_name(config)
+        # NB: a context without name says nothing about scope
+        return bool(name) and (name == CSSAbbreviationScope.Value or not name.startswith('@@'))
 
     return False
 
@@ -336,11 +343,11 @@ def get_snippets_for_scope(snippets: list, config: Config):
     "Returns snippets for given scope"
 
     if config.context:
-        if config.context['name'] == CSSAbbreviationScope.Section:
+        if context_name(config) == CSSAbbreviationScope.Section:
             return [s for s in snippets if s.type == CSSSnippetType.Raw]
 
 
-        if config.context['name'] == CSSAbbreviationScope.Property:
+        if context_name(config) == CSSAbbreviationScope.Property:
             return [s for s in snippets if s.type == CSSSnippetType.Property]
 
     return snippets
